@@ -5,8 +5,9 @@ import QV.Spec.CxxLit
 /-!
   Driver handlers of C16.
     (c16-inv "qml" "Type" (objs (o "name" (props (p "n" CODE)…) (cbs (cb "signal" (uses …) (lits …))…))…))
-        CODE = (e dyn|const OBSERVERS (uses max|min|log|tr|fmod …) (lits (q "s")|(c "s") …)) | (g (p "n" CODE)…)
-      → (inv (includes …) (calls …) (index …) (defs …) (guard none|N) (observers ("name" N)…) (lits (q "sp")…))
+        CODE = (e dyn|const OBSERVERS (uses max|min|log|tr|fmod …) (lits (q "s")|(c "s") …)
+               (enums (ev "Parent" "Enum" scoped|unscoped "Variant") …)) | (g (p "n" CODE)…)
+      → (inv (includes …) (calls …) (index …) (defs …) (guard none|N) (observers ("name" N)…) (lits (q "sp")…) (enums "Parent::Enum::Variant" …))
     (c16-lit "s" style)         → (lit (q "sp") (c "sp") (c "sp"))      model of formatStringLiteral
     (spec-cxxlit u16|narrow "spelling"…) → (decoded (units …)|(ill-formed) …)   Spec.CxxLit
   The driver sorts properties / gadget members / callbacks by name (code-point order = UTF-8 byte order, C08) and
@@ -44,12 +45,27 @@ private def uses? : Sexp → Option (List Builtin)
   | .list (.atom "uses" :: us) => Sexp.mapM? builtin? us
   | _ => none
 
+private def enumUse? : Sexp → Option EnumUse
+  | .list [.atom "ev", .str p, .str e, .atom sc, .str v] =>
+    some { parent := p, enumName := e, isScoped := sc == "scoped", variant := v }
+  | _ => none
+
+private def enums? : Sexp → Option (List EnumUse)
+  | .list (.atom "enums" :: es) => Sexp.mapM? enumUse? es
+  | _ => none
+
 private def lits? : Sexp → Option (List (Bool × List Char))
   | .list (.atom "lits" :: ls) => Sexp.mapM? lit? ls
   | _ => none
 
 /-- a property `(p "n" CODE)` at `depth` → its pre-order node list -/
 private partial def prop? (depth : Nat) : Sexp → Option (List Char × List PNode)
+  | .list [.atom "p", .str n, .list [.atom "e", .atom d, obs, us, ls, es]] =>
+    match obs.toNat?, uses? us, lits? ls, enums? es with
+    | some o, some u, some l, some e =>
+      some (n, [{ depth := depth, name := n,
+                  kind := .expr { dynamic := d == "dyn", observers := o, uses := u, lits := l, enums := e } }])
+    | _, _, _, _ => none
   | .list [.atom "p", .str n, .list [.atom "e", .atom d, obs, us, ls]] =>
     match obs.toNat?, uses? us, lits? ls with
     | some o, some u, some l =>
@@ -64,6 +80,10 @@ private partial def prop? (depth : Nat) : Sexp → Option (List Char × List PNo
   | _ => none
 
 private def cb? : Sexp → Option Callback
+  | .list [.atom "cb", .str s, us, ls, es] =>
+    match uses? us, lits? ls, enums? es with
+    | some u, some l, some e => some { signal := s, uses := u, lits := l, enums := e }
+    | _, _, _ => none
   | .list [.atom "cb", .str s, us, ls] =>
     match uses? us, lits? ls with
     | some u, some l => some { signal := s, uses := u, lits := l }
@@ -93,7 +113,8 @@ def handleInventory (args : List Sexp) : Sexp :=
           .list (.atom "defs" :: b.defs.map Sexp.str),
           .list [.atom "guard", match b.guard with | none => .atom "none" | some n => .ofNat n],
           .list (.atom "observers" :: b.observerDecls.map (fun d => .list [.str d.1, .ofNat d.2])),
-          .list (.atom "lits" :: b.lits.map (fun l => .list [.atom (if l.1 then "q" else "c"), .str l.2]))]
+          .list (.atom "lits" :: b.lits.map (fun l => .list [.atom (if l.1 then "q" else "c"), .str l.2])),
+          .list (.atom "enums" :: b.enums.map Sexp.str)]
     | none => .list [.atom "bad-request"]
   | _ => .list [.atom "bad-request"]
 
